@@ -97,7 +97,11 @@ var rOrder = &Rule{
 	Name: "R-ORDER",
 	Doc: "aggregation order: getAllHintsInternal and getAllDetailsInternal descend (recursive call on UnwrapOnce(err)) before they emit - no path leads from an append back to the recursive call - so lists are innermost-first; GetAllIssueLinks, GetContextTags and GetAllSafeDetails append inside a loop stepped by UnwrapOnce with no later reversal, so they are outermost-first; " +
 		"GetOneLineSource descends before it inspects its own layer (innermost frame wins)",
-	Run: func(c *core.Ctx) {
+	Run: func(c *core.Ctx) { runOrderOnly(c, "") },
+}
+
+func runOrderOnly(c *core.Ctx, only string) {
+	{
 		p := c.P
 		uo := p.Func("errbase", "UnwrapOnce")
 		reachable := func(from, to *ssa.BasicBlock) bool {
@@ -117,7 +121,11 @@ var rOrder = &Rule{
 			}
 			return false
 		}
-		for _, x := range []struct{ rel, fn string }{{"hintdetail", "getAllHintsInternal"}, {"hintdetail", "getAllDetailsInternal"}, {"withstack", "GetOneLineSource"}} {
+		recs := []struct{ rel, fn string }{{"hintdetail", "getAllHintsInternal"}, {"hintdetail", "getAllDetailsInternal"}, {"withstack", "GetOneLineSource"}}
+		if only != "" {
+			recs = []struct{ rel, fn string }{{"withstack", only}}
+		}
+		for _, x := range recs {
 			fn := p.Func(x.rel, x.fn)
 			name := x.rel + "." + x.fn
 			if fn == nil {
@@ -169,6 +177,9 @@ var rOrder = &Rule{
 			c.Check(argOK && okOrder, name+": innermost first", fn.Pos(), "recursive descent on UnwrapOnce(err) precedes every emit",
 				"the accessor emits its own layer before (or without) descending into the cause: the documented innermost-first order is lost")
 		}
+		if only != "" {
+			return
+		}
 		for _, x := range []struct{ rel, fn string }{{"issuelink", "GetAllIssueLinks"}, {"contexttags", "GetContextTags"}, {"errbase", "GetAllSafeDetails"}} {
 			fn := p.Func(x.rel, x.fn)
 			name := x.rel + "." + x.fn
@@ -208,7 +219,7 @@ var rOrder = &Rule{
 			c.Check(okLoop && !reversal, name+": outermost first", fn.Pos(), "appends inside the UnwrapOnce-stepped loop, no reversal",
 				"the accessor no longer appends layer by layer from the outermost error inwards")
 		}
-	},
+	}
 }
 
 // ---------------------------------------------------------------------------
